@@ -135,7 +135,9 @@ class C20(Prop):
         "selene/src/main.rs emit_codespan and the luacheck writer loop incl. --ranges (Pipeline/Location.v)",
         "codespan-reporting's rich/short renderers are parsed only for their header (severity[code]: message) and "
         "location line (file:line:col); their snippet rendering is not modelled",
-        "output parsers for rich/quiet/json/json2/luacheck in vlib/cli.py",
+        "output parsers for rich/quiet/json/json2/luacheck in vlib/cli.py (quiet is read in its own format only)",
+        "label messages, secondary labels and notes of json / json2 are compared with the library-level diagnostic by the driver (Python), not in Coq",
+        "the file is named on the command line as f.lua, ./f.lua, an absolute path or ../dir/f.lua; every style must print that name",
         "library-level diagnostics are taken from Checker::test_on via the harness (lints are oracles here)",
     ]
     assumptions = ["the file is read as String::from_utf8_lossy, so the text the styles see is valid UTF-8 "
